@@ -13,7 +13,7 @@ CORE = {
     'C02': dict(profiles=[('overlap', 500, 8000), ('lifecycle', 100, 1000)], mc='MC_C02'),
     'C03': dict(profiles=[('bounds', 500, 8000), ('overlap', 100, 1000)], mc='MC_C03'),
     'C04': dict(profiles=[('teardown', 500, 8000), ('bounds', 100, 1000)], mc='MC_C04'),
-    'C05': dict(profiles=[('sequences', 600, 10000), ('overlap', 100, 2000)], mc='MC_C05'),
+    'C05': dict(profiles=[('sequences', 600, 10000), ('overlap', 100, 2000)], mc=['MC_C05', 'MC_C05b']),
     'C06': dict(profiles=[('sequences', 600, 10000)], mc='MC_C06'),
     'C07': dict(profiles=[('forbid', 500, 8000), ('lifecycle', 100, 1000)], mc='MC_C07'),
     'C08': dict(profiles=[('clauses', 500, 8000)], mc='MC_C08'),
@@ -143,7 +143,7 @@ def run_core(prop, tier, seed, t0, cfgname='TraceCore.cfg'):
     for kid, (k, sid) in known_hits.items():
         print('KNOWN-FINDING: property=%s %s (%s; e.g. segment %s)' % (prop, k['id'], k['what'], sid))
     # ---- model checking part
-    mc = run_mc(spec.get('mc'), tier, work)
+    mc = run_mc(spec.get('mc'), tier, work, prop)
     if mc.get('error'):
         print('CHECK-ERROR property=%s model checking: %s' % (prop, mc['error'][:3000]))
         return 2
@@ -197,10 +197,38 @@ def fixed_segments(prop):
                         cur[1].append(line)
     return out
 
-def run_mc(stem, tier, work):
-    """TLC on spec/<stem>.cfg (quick) or spec/<stem>_thorough.cfg if present"""
-    if not stem:
+# as-is configurations: the model with a pinned-code deviation switched on MUST violate its property
+# (sensitivity / non-vacuity of the invariants); run in the thorough tier
+MC_SENSITIVITY = {
+    'C05': ['MC_C05_asisD1'],
+    'C06': ['MC_C05_asisD1'],
+    'C16': ['MC_C16_asisD4'],
+    'C12': ['MCConc_asis', 'MCConc_asis_lin'],
+}
+
+def run_mc(stems, tier, work, prop=None):
+    """TLC on spec/<stem>.cfg (quick) or spec/<stem>_thorough.cfg if present; several stems are summed"""
+    if not stems:
         return {}
+    if isinstance(stems, str):
+        stems = [stems]
+    total = dict(distinct=0, generated=0, summary=dict(configs=[]))
+    for stem in stems:
+        r = run_mc_one(stem, tier, work)
+        if r.get('error') or r.get('violated'):
+            return r
+        if r:
+            total['distinct'] += r['distinct']; total['generated'] += r['generated']
+            total['summary']['configs'].append(r['summary'])
+    if tier == 'thorough' and prop in MC_SENSITIVITY:
+        for stem in MC_SENSITIVITY[prop]:
+            r = run_mc_one(stem, 'quick', work)
+            if not r.get('violated'):
+                return dict(error='sensitivity configuration %s (pinned-code deviation switched on) is NOT rejected by the model: %s' % (stem, r))
+            total['summary']['configs'].append(dict(config=stem + '.cfg', expected='violation', got='violation'))
+    return total
+
+def run_mc_one(stem, tier, work):
     cfg = stem + ('_thorough.cfg' if tier == 'thorough' and os.path.exists(os.path.join(lib.SPEC, stem + '_thorough.cfg')) else '.cfg')
     if not os.path.exists(os.path.join(lib.SPEC, cfg)):
         return {}
@@ -213,7 +241,7 @@ def run_mc(stem, tier, work):
         return dict(distinct=st['distinct'], generated=st['generated'],
                     summary=dict(config=cfg, module=mod, distinct=st['distinct'], generated=st['generated'], depth=st['depth'],
                                  wall_s=round(time.time() - t, 1)))
-    if 'is violated' in out or 'Invariant' in out and 'violated' in out:
+    if 'is violated' in out or 'The first argument of Assert evaluated to FALSE' in out:
         return dict(violated=True, output=out[-8000:], distinct=st['distinct'], generated=st['generated'])
     return dict(error='TLC rc=%d: %s' % (rc, out[-2000:]))
 
@@ -605,3 +633,102 @@ def run_c09(prop, tier, seed, t0):
     return 1 if nviol else 0
 
 REGISTRY['C09'] = run_c09
+
+# ---------------------------------------------------------------- C12: thread safety
+
+TSAN_ENV = {'TSAN_OPTIONS': 'exitcode=66 halt_on_error=0 second_deadlock_stack=1 history_size=4'}
+
+def run_conc(prop, tier, seed, t0):
+    import subprocess, normalize
+    import concurrent.futures as cf
+    work = os.path.join(lib.BUILD, 'work-%s-%d' % (prop, os.getpid()))
+    shutil.rmtree(work, ignore_errors=True); os.makedirs(work)
+    rp = os.path.join(lib.BUILD, 'replay'); os.makedirs(rp, exist_ok=True)
+    d = lib.build_conc()
+    nseg = 400 if tier == 'quick' else 20000
+    segs = gen_scripts.gen_conc_segments(nseg, seed) + fixed_conc_segments()
+    by_id = dict(segs)
+    nch = lib.NCPU // 2          # each driver process runs up to 3 busy threads
+    chunks = [segs[i::nch] for i in range(nch)]
+    env = dict(os.environ); env.update(TSAN_ENV)
+    sites = normalize.Sites(os.path.join(d, 'sites.json'))
+    def one(i):
+        if not chunks[i]:
+            return dict(viol=[], events=0)
+        script = os.path.join(work, 'c%d.script' % i); raw = os.path.join(work, 'c%d.raw' % i); norm = os.path.join(work, 'c%d.ndjson' % i)
+        with open(script, 'w') as f:
+            for sid, lines in chunks[i]:
+                f.write('seg %s\n' % sid)
+                for l in lines:
+                    f.write(l + '\n')
+        p = subprocess.run(['timeout', '1800', os.path.join(d, 'drv_conc'), script, raw, str(seed * 131 + i)], env=env,
+                           stdout=subprocess.PIPE, stderr=subprocess.STDOUT, text=True)
+        if p.returncode != 0:
+            return dict(error='driver rc=%d %s' % (p.returncode, p.stdout[-400:]))
+        n = normalize.normalize_conc_file(raw, norm, sites)
+        r = lib.validate_generic('TraceCore.tla', 'TraceCore.cfg', norm, work, 'v%d' % i)
+        r['events'] = n
+        return r
+    with cf.ThreadPoolExecutor(nch) as ex:
+        res = list(ex.map(one, range(nch)))
+    errs = [r['error'] for r in res if 'error' in r]
+    if errs:
+        print('CHECK-ERROR property=C12 %s' % errs[0][:2000]); return 2
+    known = lib.load_known()
+    viols = [v for r in res for v in r['viol']]
+    by_seg, nviol, out_lines = {}, 0, []
+    for v in viols:
+        ks = [kf for kf in known.get('open', []) if known_match(kf, prop, v, by_id.get(v['seg'], []))]
+        if ks:
+            print('KNOWN-FINDING: property=C12 %s (%s; segment %s)' % (ks[0]['id'], ks[0]['what'], v['seg']))
+            continue
+        by_seg.setdefault(v['seg'], []).append(v)
+    for sid, vs in list(by_seg.items())[:10]:
+        path = replay_file('C12', sid, by_id.get(sid, []), vs, 'concurrent segment: re-run with build/conc-*/drv_conc <this file> out.ndjson <seed>; schedules are sampled')
+        out_lines.append('VIOLATION property=C12 replay=%s' % path); nviol += 1
+    nviol += max(0, len(by_seg) - 10)
+    mc = run_mc('MCConc', tier, work, 'C12')
+    if mc.get('error'):
+        print('CHECK-ERROR property=C12 model checking: %s' % mc['error'][:2000]); return 2
+    if mc.get('violated'):
+        path = os.path.join(rp, 'C12-model.txt'); open(path, 'w').write(mc['output'])
+        out_lines.append('VIOLATION property=C12 replay=%s' % path); nviol += 1
+    for l in out_lines:
+        print(l)
+    events = sum(r.get('events', 0) for r in res)
+    nontriv = len({seg_hash(ops) for sid, ops in segs if sum(1 for o in ops if o.startswith('thr 0')) >= 2 and sum(1 for o in ops if o.startswith('thr 1')) >= 2})
+    cov = dict(states=mc.get('distinct', 0), transitions=mc.get('generated', 0), traces_validated_against_impl=len(segs), events=events,
+               evaluations=len(segs), distinct_nontrivial=nontriv,
+               rule='seeded concurrent programs: 2-3 threads x 3-14 ops over {create (with/without IN_SEQUENCE, TIMES), call, release, query, is_completed, watch / destroy watched object / release monitor, destroy own mock} '
+                    'on shared mock + shared sequences; schedule perturbed by random yields in the instrumented lock; one schedule per program per run (sampled, not exhaustive); '
+                    'non-trivial = distinct program with >= 2 ops in at least two threads',
+               samples=[dict(segment=s, ops=o[:30]) for s, o in segs[:2]], model_checking=mc.get('summary', {}), exhaustive=False,
+               observers='ThreadSanitizer; lock-held flag of every hook event; linearization replay in lock-ticket order through Core!Step by TLC',
+               tree=lib.tree_hash())
+    if not mc.get('distinct'):
+        cov.pop('states'); cov.pop('transitions')
+    lib.write_evidence(prop, tier, seed, 'model_checking', cov, time.time() - t0, nviol,
+                       ['interleavings are exhaustive only in the model (MCConc); on the implementation schedules are sampled',
+                        'caller obligations: each thread destroys / queries only objects it owns; reporters installed before the threads start',
+                        'linearization witness = order of the instrumented lock acquisitions (custom recursive mutex seam)'])
+    shutil.rmtree(work, ignore_errors=True)
+    log('C12 %s: %d programs, %d events, %d violations, mc=%s, %.0fs' % (tier, len(segs), events, nviol, mc.get('summary'), time.time() - t0))
+    return 1 if nviol else 0
+
+def fixed_conc_segments():
+    d = os.path.join(lib.HARNESS, 'witness')
+    out = []
+    p = os.path.join(d, 'C12_conc.script')
+    if os.path.exists(p):
+        cur = None
+        for line in open(p):
+            line = line.rstrip('\n')
+            if not line or line.startswith('#'):
+                continue
+            if line.startswith('seg '):
+                cur = (line[4:], []); out.append(cur)
+            elif cur:
+                cur[1].append(line)
+    return out
+
+REGISTRY['C12'] = run_conc
